@@ -21,7 +21,8 @@ MODULE = 'mod'
 
 def profile():
     return replace(PC.profile(), name='matlab', max_items=5, max_members=6, ns_depth=3,
-                   operators=False, member_template_odds=4)
+                   operators=False, member_template_odds=4,
+                   reopen_ns=True)  # several interface files of one project: same namespace again
 
 
 def _no_string_ref(m):
